@@ -117,6 +117,8 @@ class Ctx:
             fn = os.path.realpath(fs.f_code.co_filename)
             if fn.startswith(inf_root):
                 qual = getattr(fs.f_code, "co_qualname", fs.f_code.co_name)
+                if qual == "Module.__getattr__" and where != "outside-inferno":
+                    continue  # attribute-lookup plumbing: keep the caller as the site
                 where = f"{fn[len(inf_root):]}:{qual}"
         return f"exception.{type(exc).__name__}@{where}:{opkind}"
 
